@@ -20,9 +20,11 @@ yet (`inflight`):
   was opened on, at the descriptor's own offset (a hole in front of it reads as `0`);
 * `cancel p` / `fail p` inside the callback (the future is dropped at `stream.read(..).await` /
   `flush().await`, or the callback returns `Err(StreamRead)` while its last write is still in flight):
-  with `joinOnDrop = false` — the code as it is — the pending write stays pending although the
-  `locked_file` is closed in the same step; with `joinOnDrop = true` (what a synchronous
-  `std::fs::File` callback does, or a callback that waited for its file) it is executed first;
+  with `joinOnDrop = false` — the code as it is — the pending write stays pending; since the repair
+  (`FC.cancelP`) the name `dest.part` is unlinked before `locked_file` is closed, so the write can only
+  land on a nameless inode (`nextLegacy`: the code before the repair, where the name stayed); with
+  `joinOnDrop = true` (what a synchronous `std::fs::File` callback does, or a callback that waited for
+  its file) it is executed first;
 * `crash p`: the process is gone, its pending writes with it (a write that had been executed before the
   kill is a `land` before the `crash`).
 
@@ -94,6 +96,22 @@ def next (joinOnDrop : Bool) (pl : Pid → Content) (s : State) : Act → Option
         else some { s with base := b }
       | .crash _, _ => some { s with base := b, inflight := s.inflight.filter (fun w => w.owner ≠ p) }
       | _, _ => some { s with base := b }
+
+/-- the deferred-write system of the code BEFORE the repair: `next false` over `FC.nextLegacy` (a future
+dropped inside the callback leaves the name `dest.part` bound to the inode the queued write targets) -/
+def nextLegacy (pl : Pid → Content) (s : State) : Act → Option State
+  | .base (.cancel p) =>
+    match FC.nextLegacy pl s.base (.cancel p) with
+    | some b => some { s with base := b }
+    | none => none
+  | a => next false pl s a
+
+def runLegacy (pl : Pid → Content) (s : State) : List Act → Option State
+  | [] => some s
+  | a :: as =>
+    match nextLegacy pl s a with
+    | some s' => runLegacy pl s' as
+    | none => none
 
 inductive Reachable (joinOnDrop : Bool) (pl : Pid → Content) : State → Prop
   | init : Reachable joinOnDrop pl State.init
